@@ -84,5 +84,87 @@ def cnf_models(block, cap=20000):
     return out, complete, {"clauses": len(clauses), "support": support, "nvars": nvars}
 
 
+def hard_errors(block):
+    """error messages that make every sampler return [] (block.show_errors() semantics), without printing"""
+    return sorted(str(e) for e in getattr(block, "errors", []) if "WARNING" not in str(e))
+
+
 def block_errors(block):
     return sorted(str(e) for e in getattr(block, "errors", []))
+
+
+def guarded(fn, timeout, *a, **k):
+    """Run fn(*a, **k) in a forked child with a hard wall-clock limit (native solver calls ignore SIGALRM).
+    fn must return something JSON-able. -> (value|None, status) with status in {'ok','timeout','died'}"""
+    import select
+    import signal
+    import sys
+    import time
+    rfd, wfd = os.pipe()
+    pid = os.fork()
+    if pid == 0:
+        code = 0
+        try:
+            os.close(rfd)
+            signal.alarm(0)
+            try:
+                val = fn(*a, **k)
+                data = json.dumps({"v": val}, default=str).encode()
+            except BaseException as e:  # noqa
+                data = json.dumps({"e": exc_info(e) if isinstance(e, Exception) else {"exc": type(e).__name__,
+                                                                                     "msg": str(e)[:200]}}).encode()
+            with os.fdopen(wfd, "wb") as f:
+                f.write(data)
+        except BaseException:
+            code = 1
+        finally:
+            os._exit(code)
+    os.close(wfd)
+    chunks = []
+    deadline = time.time() + timeout
+    status = "ok"
+    with os.fdopen(rfd, "rb") as f:
+        while True:
+            left = deadline - time.time()
+            if left <= 0:
+                status = "timeout"
+                break
+            r, _, _ = select.select([f], [], [], min(left, 1.0))
+            if r:
+                b = os.read(f.fileno(), 1 << 16)
+                if not b:
+                    break
+                chunks.append(b)
+    if status == "timeout":
+        try:
+            os.kill(pid, signal.SIGKILL)
+        except OSError:
+            pass
+    os.waitpid(pid, 0)
+    if status == "timeout":
+        return None, "timeout"
+    try:
+        d = json.loads(b"".join(chunks).decode())
+    except Exception:
+        return None, "died"
+    if "e" in d:
+        return {"_raised": d["e"]}, "ok"
+    return d["v"], "ok"
+
+
+def synth_guarded(spec, n, name, timeout=30, strict=True):
+    """Fresh build + synthesize_trials in a forked child. -> (list|None, excinfo|None, status)"""
+    def work():
+        b, pool, e = construct(spec, strict)
+        if e:
+            return {"ctor": e}
+        r, err, out = synth(b, n, name)
+        return {"r": r, "err": err}
+    val, status = guarded(work, timeout)
+    if status != "ok":
+        return None, None, status
+    if "_raised" in val:
+        return None, val["_raised"], "ok"
+    if "ctor" in val:
+        return None, val["ctor"], "ctor"
+    return val["r"], val["err"], "ok"
